@@ -97,6 +97,15 @@ MODEL = {
         'arr': dict(kind='array-double', lenlo=0, lenhi=4, wire='_arr', readonly=False, write=True, default=()),
         'bl': dict(kind='blob', lenlo=0, lenhi=4, wire='_bl', readonly=False, write=True, default=b''),
     },
+    'GW': {
+        # group: the parameters are written by ONE call of the common write method (frappy.rwhandler.CommonWriteHandler)
+        'p': dict(kind='double', lo=0.0, hi=100.0, wire='_p', readonly=False, write=True, group='pid', default=1.0),
+        'i': dict(kind='double', lo=0.0, hi=100.0, wire='_i', readonly=False, write=True, group='pid', default=1.0),
+        'd': dict(kind='double', lo=0.0, hi=100.0, wire='_d', readonly=False, write=True, group='pid', default=1.0),
+        'a': dict(kind='int', lo=0, hi=50, wire='_a', readonly=False, write=True, default=0),
+        'b': dict(kind='int', lo=0, hi=50, wire='_b', readonly=False, write=True, default=0),
+        'gain': dict(kind='double', lo=0.0, hi=10.0, wire='_gain', readonly=False, write=True, default=1.0),
+    },
     'GQ': {
         'g': dict(kind='double', lo=0.0, hi=100.0, wire='_g', readonly=False, write=True, default=1.0),
         'h': dict(kind='string', wire='_h', readonly=False, write=False, default=''),
@@ -123,7 +132,7 @@ VISIBILITY = {'user': 1, 'advanced': 2, 'expert': 3}
 # datatype properties limiting a length, per kind: (lower key, upper key)
 LENKEYS = {'string': ('minchars', 'maxchars'), 'array-double': ('minlen', 'maxlen'), 'blob': ('minbytes', 'maxbytes')}
 ALL_LENKEYS = {k for pair in LENKEYS.values() for k in pair}
-POLLED = {'GS': True, 'GA': True, 'GN': True, 'GD': True, 'GQ': False, 'GH': False, 'GO': True, 'GOI': True}    # enablePoll of the class
+POLLED = {'GW': True, 'GS': True, 'GA': True, 'GN': True, 'GD': True, 'GQ': False, 'GH': False, 'GO': True, 'GOI': True}    # enablePoll of the class
 # optional accessibles declared by a base class and NOT implemented by the class: they do not exist on its modules
 UNIMPLEMENTED = {'GO': {'opt', 'ocmd'}, 'GOI': {'ocmd'}}
 AUX_IO = 'mod_io'      # auxiliary io module (class GIO) present in every node with a GH module
@@ -175,12 +184,20 @@ ENTRIES['GS'] = [
     ('bl=2', 'bl', 'value', 'bare', b'ab'), ('bl=P6', 'bl', 'value', 'param', b'abcdef'),
     ('bmax8', 'bl', 'maxbytes', '', 8), ('bmax1', 'bl', 'maxbytes', '', 1),
 ]
+ENTRIES['GW'] = [
+    ('grp', '', 'group', 'bare', 'grp'),
+    ('p=10', 'p', 'value', 'bare', 10), ('pmax', 'p', 'max', '', 60),
+    ('i=P20', 'i', 'value', 'param', 20), ('imax', 'i', 'max', '', 50),
+    ('d=30', 'd', 'value', 'bare', 30), ('d=P200out', 'd', 'value', 'param', 200),
+    ('a=3', 'a', 'value', 'bare', 3), ('b=P4', 'b', 'value', 'param', 4), ('bmax', 'b', 'max', '', 9),
+    ('gain=2', 'gain', 'value', 'bare', 2),
+]
 ENTRIES['GO'] = [('fmax', 'f', 'max', '', 8), ('f=3', 'f', 'value', 'bare', 3), ('grp', '', 'group', 'bare', 'grp')]
 ENTRIES['GOI'] = [('opt=5', 'opt', 'value', 'bare', 5), ('optmax', 'opt', 'max', '', 10), ('optdef', 'opt', 'default', '', 4),
                   ('f=3', 'f', 'value', 'bare', 3)]
 # entries every valid configuration of the class contains (needscfg parameter, mandatory property, io module)
 REQUIRED = {
-    'GA': [], 'GD': [], 'GQ': [], 'GO': [], 'GOI': [], 'GS': [],
+    'GA': [], 'GD': [], 'GQ': [], 'GO': [], 'GOI': [], 'GS': [], 'GW': [],
     'GN': [('n=3', 'n', 'value', 'bare', 3), ('mp', '', 'mp', 'bare', 'x')],
     'GH': [('io', '', 'io', 'bare', AUX_IO)],
 }
@@ -190,6 +207,7 @@ CONTEXTS = {
     'GN': [[], ['fmax']],
     'GD': [[], ['t=20'], ['tmax']],
     'GQ': [[], ['g=5']], 'GH': [[], ['g=5']], 'GO': [[]], 'GOI': [[], ['opt=5']], 'GS': [[], ['s=P12', 'smax16']],
+    'GW': [[], ['p=10', 'd=30']],
 }
 # contexts of the two-module nodes of the 'pairs' sub-check: Param(value, override) forms, so that equal Param expressions occur
 PAIRCTX = {
@@ -197,6 +215,7 @@ PAIRCTX = {
     'GN': [[], ['fmax']],
     'GD': [[], ['t=P20', 'tmax']],
     'GS': [[], ['s=P12', 'smax16'], ['arr=P6', 'amax6', 'bl=2']],
+    'GW': [[], ['p=10', 'i=P20', 'imax']],
     'GQ': [[], ['g=P7.5', 'gmax']], 'GH': [[], ['g=P7.5', 'gmax']],
     'GO': [[], ['fmax']], 'GOI': [[], ['opt=5', 'optmax']],
 }
@@ -247,6 +266,11 @@ ERRORS['GS'] = [
     ('inv-s', 'inverted-limits', 'add2', (('s', 'minchars', 6), ('s', 'maxchars', 3))),
     ('inv-arr', 'inverted-limits', 'add', ('arr', 'minlen', 5)),
 ]
+ERRORS['GW'] = [
+    ('unk-name', 'unknown-name', 'add', ('nosuch', 'value', 1)),
+    ('type-p', 'wrong-type', 'add', ('p', 'value', 'x')),
+    ('inv-i', 'inverted-limits', 'add2', (('i', 'min', 60), ('i', 'max', 40))),
+]
 ERRORS['GO'] = [
     ('unimpl-opt-value', 'unknown-name', 'add', ('opt', 'value', 5)),
     ('unimpl-opt-prop', 'unknown-name', 'add', ('opt', 'max', 10)),
@@ -254,9 +278,9 @@ ERRORS['GO'] = [
     ('unk-name', 'unknown-name', 'add', ('nosuch', 'value', 1)),
 ]
 ERRORS['GOI'] = [('unimpl-optcmd-prop', 'unknown-name', 'add', ('ocmd', 'visibility', 'expert'))]
-CLASSES = ['GA', 'GN', 'GD', 'GS', 'GQ', 'GH', 'GO', 'GOI']
-WIDE_CLASSES = ['GA', 'GN', 'GD', 'GS', 'GQ', 'GO']      # class tuples of the 3-module nodes (thorough)
-FILE_CLASSES = ['GA', 'GN', 'GD', 'GS', 'GQ', 'GO', 'GOI']   # GH needs the auxiliary io module: direct mode only
+CLASSES = ['GA', 'GN', 'GD', 'GS', 'GW', 'GQ', 'GH', 'GO', 'GOI']
+WIDE_CLASSES = ['GA', 'GN', 'GD', 'GS', 'GW', 'GQ', 'GO']      # class tuples of the 3-module nodes (thorough)
+FILE_CLASSES = ['GA', 'GN', 'GD', 'GS', 'GW', 'GQ', 'GO', 'GOI']   # GH needs the auxiliary io module: direct mode only
 MODNAMES = ['mod_a', 'mod_b', 'mod_c']
 
 
@@ -783,9 +807,39 @@ def check_valid(part, node, name, cls, items, case, tag):
         part.violation(f'C10:poll-thread-start-up:unpolled-module-with-values-to-write-has-{len(threads)}-threads', case,
                        f'{where}: poll threads handling the module: {threads}')
     part.outcomes[f'module-handled-by:{"own" if threads and threads[0][0] == name else "io" if threads else "no"}-thread'] += 1
+    # parameters sharing one write method: ONE call carrying all configured members
+    groups = {}
+    for p, cfg in ref.per.items():
+        if 'value' in cfg and model[p].get('group'):
+            groups.setdefault(model[p]['group'], []).append(p)
+    for gname, members in groups.items():
+        if any(ref.outside(p, 'value') for p in members):
+            part.outcomes['init-write:value-outside-limits:no-demand'] += 1
+            continue
+        idx = [i for i, ev in enumerate(raw) if ev[0] == 'write' and ev[1] == gname]
+        part.traces += 1
+        n = len(members)
+        if len(idx) != 1:
+            part.violation(f'C10:init-write:common-write-method:called-{len(idx) if len(idx) < 2 else "N"}-times', case,
+                           f'{where}: {n} of the parameters sharing the write method write_{gname} are configured ({members}); the '
+                           f'method was called {len(idx)} times during start-up, driver log {raw}')
+        elif idx[0] > first_poll:
+            part.violation(f'C10:init-write:common-write-method:after-first-poll', case,
+                           f'{where}: write_{gname} after the first poll: {raw}')
+        else:
+            got = raw[idx[0]][2]
+            # the members reach the common method partly through the write wrapper (converted), partly straight from the
+            # configuration: compared by value (20 == 20.0 denotes the same value)
+            bad = [p for p in members if not (p in got and got[p] == conv(model[p], ref.per[p]['value']))]
+            if bad:
+                part.violation(f'C10:init-write:common-write-method:wrong-value', case,
+                               f'{where}: write_{gname} got {got!r}; configured members {[(p, ref.per[p]["value"]) for p in bad]} '
+                               f'are not among them')
+            else:
+                part.outcomes[f'init-write:common-method-once-for-{n}-members'] += 1
     for p, cfg in ref.per.items():
         m = model[p]
-        if 'value' not in cfg or not m.get('write'):
+        if 'value' not in cfg or not m.get('write') or m.get('group'):
             continue
         if ref.outside(p, 'value'):
             part.outcomes['init-write:value-outside-limits:no-demand'] += 1
@@ -1223,7 +1277,8 @@ def file_specs(tier):
             yield [[c1, ents, []]]
 
 
-LAYOUTS = ['one-file-by-name', 'two-files-by-name', 'two-files-by-path']
+LAYOUTS = ['one-file-by-name', 'two-files-by-name', 'two-files-by-path', 'two-files-same-module-name']
+SAME_NAME = 'two-files-same-module-name'    # the second file ALSO defines a module with the name of the first file's module
 SHARED_LAYOUT = 'one-file-shared-param-objects'      # `par0 = Param(...)` once, used by every Mod(...) with that expression
 
 
@@ -1255,6 +1310,12 @@ def run_files(part, spec, layout, scratch):
         files = {'one_cfg.py': first + ''.join(texts)}
         args = ['one']
         second_mods = []
+    elif layout == SAME_NAME:
+        # file one: mod_a as spec[0]; file two: a module of the SAME name configured as spec[1], and mod_b as spec[1]
+        clash = mod_text(names[0], spec[1][0], items[1])
+        files = {'one_cfg.py': first + texts[0], 'two_cfg.py': second + clash + ''.join(texts[1:])}
+        second_mods = names[1:]
+        args = ['one', 'two']
     else:
         files = {'one_cfg.py': first + texts[0], 'two_cfg.py': second + ''.join(texts[1:])}
         second_mods = names[1:]
@@ -1272,6 +1333,10 @@ def run_files(part, spec, layout, scratch):
         try:
             merged = load_config(args, log)
         except Exception as e:
+            from frappy.errors import ConfigError
+            if layout == SAME_NAME and isinstance(e, ConfigError):
+                part.outcomes['files:same-module-name:refused-by-load_config'] += 1      # a permitted reading: the clash is an error
+                return
             part.violation(f'C10:files:load_config-raises:{type(e).__name__}', case, f'{layout}: load_config({args}) of {files} raised {e!r}')
             return
         part.transitions += 1
@@ -1284,6 +1349,24 @@ def run_files(part, spec, layout, scratch):
     for n in second_mods:
         expect[n]['original_id'] = 'second_id'
     part.traces += 1
+    if layout == SAME_NAME:
+        # the statement does not say which definition of a module named in two files is to be used: the module must be one of
+        # the two definitions AS A WHOLE - the first file's (nothing of the second file applied to it) or the second file's
+        # (then marked with that file's equipment id) - never a mixture
+        later = dict(expect)
+        later[names[0]] = dict(build_mod(names[0], spec[1][0], items[1]), original_id='second_id')
+        if json.dumps(merged, sort_keys=True, default=repr) == json.dumps(later, sort_keys=True, default=repr):
+            part.outcomes['files:same-module-name:second-file-used-as-a-whole'] += 1
+            expect = later
+            spec = [spec[1]] + list(spec[1:])
+            case = dict(case, spec=spec)
+        elif json.dumps(merged, sort_keys=True, default=repr) == json.dumps(expect, sort_keys=True, default=repr):
+            part.outcomes['files:same-module-name:first-file-used-as-a-whole'] += 1
+        else:
+            part.violation('C10:files:same-module-name-in-two-files:module-is-neither-definition-as-a-whole', case,
+                           f'{layout}: files {files} load as {merged}; expected the first file\'s {names[0]} untouched {expect[names[0]]} '
+                           f'or the second file\'s as a whole {later[names[0]]}')
+            return
     if json.dumps(merged, sort_keys=True, default=repr) != json.dumps(expect, sort_keys=True, default=repr) or list(merged) != names:
         part.violation(f'C10:files:{layout}:merged-configuration-differs', case,
                        f'{layout}: files {files} load as {merged}, the same Mod(...) calls in process give {expect}')
